@@ -13,6 +13,7 @@ import (
 	"os"
 	"path/filepath"
 	"reflect"
+	"runtime/debug"
 	"strconv"
 	"strings"
 	"sync"
@@ -173,7 +174,9 @@ func genMainCase(t *rapid.T) interface{} {
 				pl, _, _ := payloadFor(rapid.IntRange(0, 2).Draw(t, "dkind"), rapid.IntRange(0, 2).Draw(t, "who"), fee)
 				b.Txs = append(b.Txs, connkit.MTx{Kind: "deposit", Payload: pl, From: rapid.IntRange(1, 3).Draw(t, "from"), Value: val.String(), Coin: rapid.SampledFrom([]int{1, 10}).Draw(t, "coin")})
 			case 5:
-				b.Txs = append(b.Txs, connkit.MTx{Kind: "bad-deposit", Payload: rapid.SampledFrom([]string{`{"type":"send_to_ethereum","recipient":"0x58BD","fee":"1"}`, `not json`, `{"type":"teleport","recipient":"x","fee":"1"}`, `{"type":"send_to_bsc","recipient":"0x58BD8047F441B9D511aEE9c581aEb1caB4FE0b6d","fee":"-1"}`}).Draw(t, "bad")})
+				b.Txs = append(b.Txs, connkit.MTx{Kind: "bad-deposit", Payload: rapid.SampledFrom([]string{`{"type":"send_to_ethereum","recipient":"0x58BD","fee":"1"}`, `not json`, `{"type":"teleport","recipient":"x","fee":"1"}`, `{"type":"send_to_bsc","recipient":"0x58BD8047F441B9D511aEE9c581aEb1caB4FE0b6d","fee":"-1"}`,
+					// payloads that parse but leave fields out (a decoder must not fill them from anything seen before)
+					`{"fee":"0"}`, `{}`, `null`, `{"recipient":"0x58BD8047F441B9D511aEE9c581aEb1caB4FE0b6d"}`, `{"type":"send_to_hub","fee":"0"}`}).Draw(t, "bad")})
 			case 6:
 				pl, _, _ := payloadFor(0, 0, "0")
 				b.Txs = append(b.Txs, connkit.MTx{Kind: "send-elsewhere", Payload: pl})
@@ -249,8 +252,29 @@ func describeEvent(e mtypes.ExternalEvent) string {
 	return fmt.Sprintf("%T", e)
 }
 
-func runMainCase(ci interface{}, rec *pbt.Rec) *pbt.Failure {
+func runMainCase(ci interface{}, rec *pbt.Rec) (fail *pbt.Failure) {
 	c := ci.(*MainCase)
+	// a panic raised inside the connector's own code ends the process as it would end the real one: whatever history and
+	// payload led there is an input the connector cannot get past (it meets the same block again after every restart)
+	defer func() {
+		if r := recover(); r != nil {
+			where := ""
+			for _, l := range strings.Split(string(debug.Stack()), "\n") {
+				if strings.Contains(l, "/minter-connector/") && !strings.Contains(l, "zz_verif") && strings.Contains(l, ".go:") {
+					where = strings.TrimSpace(l)
+					if i := strings.Index(where, " +0x"); i > 0 {
+						where = where[:i]
+					}
+					where = where[strings.Index(where, "/minter-connector/")+1:]
+					break
+				}
+			}
+			if where == "" {
+				panic(r)
+			}
+			fail = pbt.Failf("connector-panics", "the connector panics at %s: %v", where, r)
+		}
+	}()
 	// lay the history out: gaps become empty blocks
 	var blocks []connkit.MBlock
 	for i, b := range c.Blocks {
@@ -341,8 +365,8 @@ func runMainCase(ci interface{}, rec *pbt.Rec) *pbt.Failure {
 		return cur{ctx.LastCheckedMinterBlock(), ctx.LastEventNonce(), ctx.LastBatchNonce(), ctx.LastValsetNonce()}
 	}
 	visible := uint64(0)
-	acked := uint64(0)         // highest event nonce this validator has committed to the hub
-	var history [][]byte       // earlier contents of the status file (for crashes)
+	acked := uint64(0)               // highest event nonce this validator has committed to the hub
+	var history [][]byte             // earlier contents of the status file (for crashes)
 	claimedAs := map[string]uint64{} // tx hash -> nonce it was claimed with
 	var relays, restarts, crashes, capped, claimedEvents, multiBlockBatches int
 	started := false
@@ -507,12 +531,12 @@ func TestC20Main(t *testing.T) {
 		hubRecipients = append(hubRecipients, sdk.AccAddress(r).String())
 	}
 	(&pbt.Check{
-		ID:   "C20",
-		Part: "main",
-		Rule: "the connector's own package main, compiled with this test added through go test -overlay: Minter histories (deposits of several senders / coins / targets, invalid commands, transfers elsewhere, batches, multisig edits, foreign multisends, runs of up to 205 empty blocks) revealed to the connector in steps; the start-up sequence of main() (LoadStatus, GetLatestMinterBlockAndNonce with the nonce the hub acknowledged) and relayMinterEvents run against a scripted node, with restarts and crashes that leave an older status file behind; every claim the scan commits must carry the event's position in the history as its nonce and exactly the transaction's content, claims of one scan are contiguous with what the hub has, no transaction is ever claimed under two nonces, and after every step the cursor equals the reference cursor at its last-checked block; non-trivial = >=2 claimed events, >=2 scans and >=1 restart; distinct = distinct case JSON",
-		Gen:  genMainCase,
-		New:  func() interface{} { return &MainCase{} },
-		Run:  runMainCase,
+		ID:          "C20",
+		Part:        "main",
+		Rule:        "the connector's own package main, compiled with this test added through go test -overlay: Minter histories (deposits of several senders / coins / targets, invalid commands, transfers elsewhere, batches, multisig edits, foreign multisends, runs of up to 205 empty blocks) revealed to the connector in steps; the start-up sequence of main() (LoadStatus, GetLatestMinterBlockAndNonce with the nonce the hub acknowledged) and relayMinterEvents run against a scripted node, with restarts and crashes that leave an older status file behind; every claim the scan commits must carry the event's position in the history as its nonce and exactly the transaction's content, claims of one scan are contiguous with what the hub has, no transaction is ever claimed under two nonces, and after every step the cursor equals the reference cursor at its last-checked block; non-trivial = >=2 claimed events, >=2 scans and >=1 restart; distinct = distinct case JSON",
+		Gen:         genMainCase,
+		New:         func() interface{} { return &MainCase{} },
+		Run:         runMainCase,
 		Assumptions: []string{"the hub acknowledges exactly what the connector committed (claims refused by the hub are C03's subject)", "tx_committer.Server's queue is drained by the test instead of being broadcast; its fields are reached through reflect/unsafe"},
 	}).Main(t)
 }
